@@ -726,6 +726,11 @@ def gen_history_cases(seed, count, maxops=40):
         inputs = {}
         for gid in (0, 1):
             inputs[gid] = gen_inputs(r, pool[gid], 4, 6)
+        def set_burst(h, k):
+            for key in r.sample(['la', 'one', 'cost', 'rec', 'match', 'debug'], k):
+                v = {'la': r.choice([-2, 0, 1, 2, 5]), 'one': r.choice([0, 1, 1, 7]), 'cost': r.choice([0, 0, 1]), 'rec': r.choice([0, 1]),
+                     'match': r.choice([1, 2, 3, 4, 3, 2, 0, -1, -7, 1000]), 'debug': r.choice([0, 0, 1, 2])}[key]
+                op('set %d %s %d' % (h, key, v))
         for _ in range(r.randint(8, maxops)):
             h = r.randrange(3)
             if not alive[h]:
@@ -736,10 +741,9 @@ def gen_history_cases(seed, count, maxops=40):
                 gid = r.choice([0, 0, 1, 1, 2, 3])
                 op('def %d %d' % (h, gid)); defined[h] = gid
             elif x < 0.40:
-                k = r.choice(['la', 'one', 'cost', 'rec', 'match', 'debug'])
-                v = {'la': r.choice([-2, 0, 1, 2, 5]), 'one': r.choice([0, 1, 1, 7]), 'cost': r.choice([0, 0, 1]), 'rec': r.choice([0, 1]),
-                     'match': r.choice([1, 2, 3, 4, 3, 2, 0, -1, -7, 1000]), 'debug': r.choice([0, 0, 1, 2])}[k]
-                op('set %d %s %d' % (h, k, v))
+                # one setting, or a burst of several (conjunctions of flags; every setter also
+                # reads the previous value back)
+                set_burst(h, r.choice([1, 1, 1, 2, 3, 6]))
             elif x < 0.78:
                 gid = defined[h] if defined[h] in (0, 1) else r.choice([0, 1])
                 g = pool[gid]
@@ -754,6 +758,8 @@ def gen_history_cases(seed, count, maxops=40):
                 if y > 0.9: ak, fk = r.choice([('null', 'user'), ('null', 'null'), ('user', 'null')])
                 if nparse[h] < 60:
                     op(('parse %d %s %s 15 %s' % (h, ak, fk, ' '.join(map(str, codes)))).strip()); nparse[h] += 1
+                    # a parse must leave every setting as it was: read some of them back
+                    if r.random() < 0.3: set_burst(h, r.choice([2, 3, 6]))
             elif x < 0.86:
                 op('err %d' % h)
             elif x < 0.93 and nparse[h] > 0:
